@@ -31,12 +31,13 @@ RULE = (
     "doomed branch; payload objects with value equality and lazy (batched, re-iterable) row iterables are attached; the rows cached on each core are "
     "snapshotted when first seen and re-compared (same rows, same order) after every step. "
     "  'faulted' steps make an evaluation FAIL half-way (the core's leaf stops delivering rows at a random position, or the k-th Processor hook call raises): a payload stored by a failed evaluation must hold the complete rows, iterations started by the failed attempt are not counted against at-most-once, and all later steps are judged as usual. "
+    "  Worker 0 adds scale probes: a 150 000-row materialization shared by two small slices and a full read, in three orders of first use (evaluated once, cached on the node). "
 )
 ASSUMPTIONS = [
     "iteration-core leaves are observed through CountingRows payloads; SQL cores through the Processor hook log",
     "attach_payload(None) on a relation without payload is a no-op (the payload stays None), as the code documents",
 ]
-MIN_OBS = {"steps_executed": 4000, "faults_injected": 500, "attach_contract_evaluations": 300, "attach_rejections_checked": 1000, "core_reuses": 1000, "shadow_sweeps": 4000, "cores_evaluated": 200}
+MIN_OBS = {"steps_executed": 4000, "scale_probes": 3, "faults_injected": 500, "attach_contract_evaluations": 300, "attach_rejections_checked": 1000, "core_reuses": 1000, "shadow_sweeps": 4000, "cores_evaluated": 200}
 CASE_TIMEOUT = 180
 STEPS = ["build", "build", "execute", "execute", "process", "process", "attach_valid", "attach_again", "attach_none", "attach_nonmarker", "faulted", "faulted"]
 
@@ -382,6 +383,45 @@ def run_case(case):
         return out
     finally:
         db.close()
+
+
+def run_shard(seed, wid, nworkers, tier):
+    """Worker 0: scale probes.  A materialization of 150 000 rows shared by two small slices and a
+    full read, in three orders of first use: the upstream tree is evaluated once, whichever consumer
+    comes first, and the rows are cached on the node (behaviour that switches with size never shows on
+    a dozen rows)."""
+    import lsst.daf.relation as R
+    from lsst.daf.relation import iteration
+
+    from ..dbx import CountingRows
+    from ..tags import T
+
+    out = {"counters": {}, "violations": [], "evaluations": 0, "sigs": [], "extra": {}}
+    if wid != 0:
+        return out
+    a = T("a")
+    n = 150_000
+    for order in (("slice", "slice2", "full"), ("full", "slice", "slice2"), ("slice2", "full", "slice")):
+        log: list = []
+        rows = [{a: i} for i in range(n)]
+        payload = CountingRows(rows, "BIG", log)
+        engine = iteration.Engine(name="big")
+        leaf = R.LeafRelation(engine, frozenset({a}), payload, name="BIG", min_rows=n, max_rows=n)
+        mat = leaf.with_calculated_column(T("b"), R.ColumnExpression.reference(a).method("__neg__")).materialized(name="BIGM")
+        node = mat
+        while not isinstance(node, R.Materialization):
+            node = node.target
+        users = {"slice": mat[0:5], "slice2": mat[100_000:100_010], "full": mat}
+        want = {"slice": 5, "slice2": 10, "full": n}
+        for k in order:
+            got = sum(1 for _ in engine.execute(users[k]))
+            out["evaluations"] += 1
+            if got != want[k]:
+                out["violations"].append({"kind": "scale_probe_rows_differ", "detail": f"{k} of a {n}-row materialization yields {got} rows, expected {want[k]} (order of first use {order})"})
+        if payload.starts > 1:
+            out["violations"].append({"kind": "core_upstream_evaluated_more_than_once", "detail": f"{n}-row leaf below a materialization started {payload.starts} iterations for the uses {order}"})
+        out["counters"]["scale_probes"] = out["counters"].get("scale_probes", 0) + 1
+    return out
 
 
 def c09_strip(prog):
